@@ -574,6 +574,7 @@ type Contract struct {
 	Inline     bool
 	Trusted    bool
 	MayPanic   bool
+	Case       string // non-empty: an additional contract ("func Key #case") for a function that has a plain one
 	NoSafety   bool // skip implicit panic obligations (stated in evidence)
 	Interference bool // acquiring a mutex havocs the fields it guards (other goroutines ran)
 	AssumePre  bool // callee preconditions are assumed, not proved, in this function (stated in evidence)
@@ -823,10 +824,20 @@ func (db *SpecDB) loadFile(path, pkg string, assumed bool) error {
 			if rc.kw == "assume" {
 				key = strings.TrimSpace(strings.TrimPrefix(key, "func"))
 			}
-			c := &Contract{Key: key, Pkg: pkg, File: path, Line: rc.line}
+			// "func Key #case": a further contract for the same function, verified on its own
+			// (e.g. under a different precondition); callers only ever see the plain one
+			caseName := ""
+			if h := strings.LastIndex(key, " #"); h > 0 {
+				caseName = strings.TrimSpace(key[h+2:])
+				key = strings.TrimSpace(key[:h])
+			}
+			c := &Contract{Key: key, Pkg: pkg, File: path, Line: rc.line, Case: caseName}
 			full := key
 			if pkg != "" {
 				full = pkg + "." + key
+			}
+			if caseName != "" {
+				full += "#" + caseName
 			}
 			if rc.kw == "assume" || assumed {
 				c.Trusted = true
